@@ -2,6 +2,7 @@
      D <hex>,<hex>,...
      S <start> <end|E> <utc_min> <sd> <ed> <prev0> <t0> <n> <gap>,<gap>,...
      X <start_time> <end_time> <utc_offset_mins> <duration> <start_day> <end_day>   (hex, - = empty, ~ = absent)
+     W <the six X fields> <prev0> <t0> <n> <gap>,...
      C <t> *)
 let zs = z_of_string
 let sz = string_of_z
@@ -84,6 +85,21 @@ let () = run_protocol (fun case impl ->
       | _ -> R_crash) in
     let ok str = c24_ok_cfg x.x_start x.x_end x.x_utc x.x_dur x.x_sd x.x_ed (parse str) in
     (mstr, ok impl, ok mstr)
+  | ["W"; st; en; utc; dur; sd; ed; prev0; t0; n; gaps] ->
+    let x = { x_start = opt_hex st; x_end = opt_hex en; x_utc = opt_num utc; x_dur = opt_num dur;
+              x_sd = opt_hex sd; x_ed = opt_hex ed } in
+    let ts = instants (zs t0) (int_of_string n) (List.map zs (split_on ',' gaps)) in
+    let r = configured_run x (prev0 <> "0") ts in
+    let mstr = (match r with
+      | CR_ub -> "UB-OVERFLOW" | CR_invalid -> "INVALID" | CR_error -> "EXC ConfigurationError"
+      | CR_bits b -> rle b) in
+    let parse str = (match str with
+      | "INVALID" -> W_invalid
+      | "EXC ConfigurationError" -> W_rejected
+      | _ -> (match unrle str with Some b -> W_bits b | None -> W_crash)) in
+    let ok str = c24_ok_cfgrun x.x_start x.x_end x.x_utc x.x_dur x.x_sd x.x_ed ts (parse str) in
+    let om = ok mstr in
+    (mstr, (if impl = mstr then om else ok impl), om)
   | ["C"; t] ->
     let t = zs t in
     let mstr = String.concat " " [sz t; sz (wday_of t); sz (Z.quot t billion)] in
